@@ -662,16 +662,58 @@ Proof.
   intros Hi. apply H. right. exact Hi.
 Qed.
 
-Lemma taken_cremove c c0 (m : list (N * conn)) key : cuniq m ->
-  (forall k, cfind c m = Some k -> k_key k = None) ->
+Lemma taken_cremove_gen c c0 (m : list (N * conn)) key : cuniq m ->
+  (forall k own, cfind c m = Some k -> k_key k = Some own -> list_eqb own key = false) ->
   taken_by_others c0 (cremove c m) key = taken_by_others c0 m key.
 Proof.
   unfold taken_by_others, cuniq. induction m as [|[k v] t IH]; intros Hu H; cbn [cremove existsb]. reflexivity.
   cbn [map fst] in Hu. apply NoDup_cons_iff in Hu. destruct Hu as [Hk Hu].
   destruct (k =? c) eqn:E.
-  - cbn [cfind] in H. rewrite E in H. cbn [fst snd]. rewrite (H v eq_refl). rewrite andb_false_r. cbn [orb].
+  - cbn [cfind] in H. rewrite E in H. cbn [fst snd].
+    assert (match k_key v with Some k0 => list_eqb k0 key | None => false end = false) as ->.
+    { destruct (k_key v) as [own|] eqn:Ek; [|reflexivity]. apply (H v own eq_refl Ek). }
+    rewrite andb_false_r. cbn [orb].
     rewrite cremove_absent. reflexivity. replace c with k by lia. exact Hk.
-  - cbn [existsb]. f_equal. apply IH. exact Hu. intros k0 Hk0. apply H. cbn [cfind]. rewrite E. exact Hk0.
+  - cbn [existsb]. f_equal. apply IH. exact Hu. intros k0 own Hk0. apply H. cbn [cfind]. rewrite E. exact Hk0.
+Qed.
+
+Lemma taken_cremove c c0 (m : list (N * conn)) key : cuniq m ->
+  (forall k, cfind c m = Some k -> k_key k = None) ->
+  taken_by_others c0 (cremove c m) key = taken_by_others c0 m key.
+Proof.
+  intros Hu H. apply taken_cremove_gen. exact Hu. intros k own Hk Ho. rewrite (H k Hk) in Ho. discriminate.
+Qed.
+
+(* a read consults the registry at most once: for the key of the first message that reaches the join *)
+Lemma deliver_all_first_key pa t1 t2 : forall ps c, k_key c = None ->
+  (forall key, first_key ps = Some key -> t1 key = t2 key) ->
+  deliver_all pa t1 c ps = deliver_all pa t2 c ps.
+Proof.
+  induction ps as [|p ps IH]; intros c Hk H; cbn [deliver_all]. reflexivity.
+  cbn [first_key] in H. unfold deliver. rewrite Hk.
+  destruct (Reply.lookup (m_id (p_msg p))) as [hi|].
+  2:{ cbn [bind]. rewrite (IH c Hk H). reflexivity. }
+  destruct (m_id (p_msg p) =? Reply.REISSUE).
+  { cbn [bind]. erewrite IH; [reflexivity|reflexivity|exact H]. }
+  rewrite (H _ eq_refl).
+  destruct (if pa && pm_complete p then handler_parse_chk (p_msg p) else Ok tt) as [u|e|]; cbn [bind]; try reflexivity.
+  destruct (t2 (phone_of (p_msg p))). reflexivity.
+  destruct (pm_complete p && Reply.hi_has hi).
+  - destruct (reply_body_chk _ _ _) as [rb|e|]; cbn [bind]; try reflexivity.
+    destruct (snd rb); cbn [bind]; rewrite (deliver_all_agree pa t1 t2 ps) by (left; discriminate); reflexivity.
+  - cbn [bind]. rewrite (deliver_all_agree pa t1 t2 ps) by (left; discriminate). reflexivity.
+Qed.
+
+Lemma conn_data_claimed pa t1 t2 now k d :
+  (forall key, claimed_key now k d = Some key -> t1 key = t2 key) ->
+  conn_data pa t1 now k d = conn_data pa t2 now k d.
+Proof.
+  intros H. destruct (k_key k) as [own|] eqn:Ek.
+  - apply conn_data_agree. left. congruence.
+  - unfold conn_data. rewrite parse_chk_ok. cbn [bind].
+    unfold claimed_key in H. rewrite Ek in H.
+    destruct (parse now (k_ps k) d) as [[ps' msgs] err]. destruct err. reflexivity.
+    apply deliver_all_first_key. exact Ek. exact H.
 Qed.
 
 Definition R808 (c : N) (s1 s2 : srv808) : Prop :=
@@ -717,23 +759,21 @@ Proof.
     cbn [v_conns v_log v_shut]. intros _. repeat split; auto. now apply cuniq_cset. now rewrite cremove_cset_same.
 Qed.
 
-Lemma R808_other pa c s1 s2 e : ev_conn e <> c -> R808 c s1 s2 ->
-  (joined (ev_conn e) s1 || holds_no_key c s1 || match e with Data _ _ _ => false | _ => true end) = true ->
+Lemma R808_other_gen pa c s1 s2 e : ev_conn e <> c -> R808 c s1 s2 ->
+  (forall c0 now d k, e = Data c0 now d -> cfind c0 (v_conns s1) = Some k ->
+     conn_data pa (taken_by_others c0 (cremove c (v_conns s1))) now k d =
+     conn_data pa (taken_by_others c0 (v_conns s1)) now k d) ->
   R808 c (step808 pa s1 e) (step808 pa s2 e).
 Proof.
   intros He (H1 & H2 & Hu & Hc & Hl & Hs) Hsafe.
   pose proof (step808_alive pa s1 e H1) as Ha1. pose proof (step808_alive pa s2 e H2) as Ha2.
   split. exact Ha1. split. exact Ha2. revert Ha1 Ha2. unfold step808. rewrite H1, H2.
-  destruct e as [c0|c0 now d|c0|c0]; cbn [ev_conn] in He, Hsafe; rewrite Hc, ?cfind_cremove_other by exact He.
+  destruct e as [c0|c0 now d|c0|c0]; cbn [ev_conn] in He; rewrite Hc, ?cfind_cremove_other by exact He.
   - destruct (cfind c0 (v_conns s1)). { intros _ _. auto 6. }
     cbn [v_conns v_log v_shut]. intros _ _. repeat split; auto. now apply cuniq_cset. now rewrite cremove_cset_other.
   - destruct (cfind c0 (v_conns s1)) as [k|] eqn:Ef. 2:{ intros _ _. auto 6. }
     destruct d as [|b d]. { intros _ _. auto 6. }
-    rewrite (conn_data_agree pa (taken_by_others c0 (cremove c (v_conns s1))) (taken_by_others c0 (v_conns s1)) now k (b :: d)).
-    2:{ rewrite orb_false_r in Hsafe. apply orb_true_iff in Hsafe. destruct Hsafe as [Hj|Hn].
-        - left. unfold joined in Hj. rewrite Ef in Hj. destruct (k_key k); congruence.
-        - right. intros key. apply taken_cremove. exact Hu. intros kc Hkc. unfold holds_no_key in Hn.
-          rewrite Hkc in Hn. destruct (k_key kc); congruence. }
+    rewrite (Hsafe c0 now (b :: d) k eq_refl Ef).
     destruct (conn_data pa _ now k (b :: d)) as [[k' outs|k' outs]|err|]; cbn [v_crashed v_conns v_log v_shut];
       try discriminate; intros _ _.
     + repeat split. now apply cuniq_cset. now rewrite cremove_cset_other.
@@ -745,6 +785,42 @@ Proof.
   - cbn [v_conns v_log v_shut]. intros _ _. repeat split; auto. now apply cuniq_cremove. apply cremove_comm.
   - destruct (cfind c0 (v_conns s1)). 2:{ intros _ _. auto 6. }
     cbn [v_conns v_log v_shut]. intros _ _. repeat split; auto. now apply cuniq_cset. now rewrite cremove_cset_other.
+Qed.
+
+Lemma R808_other pa c s1 s2 e : ev_conn e <> c -> R808 c s1 s2 ->
+  (joined (ev_conn e) s1 || holds_no_key c s1 || match e with Data _ _ _ => false | _ => true end) = true ->
+  R808 c (step808 pa s1 e) (step808 pa s2 e).
+Proof.
+  intros He HR Hsafe. apply R808_other_gen; auto. destruct HR as (_ & _ & Hu & _).
+  intros c0 now d k -> Ef. cbn [ev_conn] in Hsafe. rewrite orb_false_r in Hsafe.
+  apply conn_data_agree. apply orb_true_iff in Hsafe. destruct Hsafe as [Hj|Hn].
+  - left. unfold joined in Hj. rewrite Ef in Hj. destruct (k_key k); congruence.
+  - right. intros key. apply taken_cremove. exact Hu. intros kc Hkc. unfold holds_no_key in Hn.
+    rewrite Hkc in Hn. destruct (k_key kc); congruence.
+Qed.
+
+(* the exact condition: the key claimed by the read is not one that c owns *)
+Lemma R808_other_unclaimed pa c s1 s2 e : ev_conn e <> c -> R808 c s1 s2 ->
+  unclaimed pa c s1 [e] = true -> R808 c (step808 pa s1 e) (step808 pa s2 e).
+Proof.
+  intros He HR Hok. apply R808_other_gen; auto. destruct HR as (_ & _ & Hu & _).
+  intros c0 now d k -> Ef. cbn [ev_conn] in He. cbn [unclaimed] in Hok. rewrite andb_true_r in Hok.
+  replace (c0 =? c) with false in Hok by lia. cbn [orb] in Hok. rewrite Ef in Hok.
+  apply conn_data_claimed. intros key Hck. apply taken_cremove_gen. exact Hu.
+  intros kc own Hkc Hown. rewrite Hkc, Hown, Hck in Hok. apply negb_true_iff in Hok. exact Hok.
+Qed.
+
+Lemma unclaimed_cons pa c s e t : unclaimed pa c s (e :: t) = unclaimed pa c s [e] && unclaimed pa c (step808 pa s e) t.
+Proof. cbn [unclaimed]. now rewrite andb_true_r. Qed.
+
+Lemma R808_run_unclaimed pa c : forall evs s1 s2, R808 c s1 s2 -> unclaimed pa c s1 evs = true ->
+  R808 c (fold_left (step808 pa) evs s1) (fold_left (step808 pa) (without c evs) s2).
+Proof.
+  induction evs as [|e evs IH]; intros s1 s2 HR Hok; cbn [fold_left without filter]. exact HR.
+  rewrite unclaimed_cons in Hok. apply andb_true_iff in Hok. destruct Hok as [Hsafe Hok].
+  destruct (ev_conn e =? c) eqn:E; cbn [negb fold_left].
+  - apply IH; [|exact Hok]. apply R808_own. lia. exact HR.
+  - apply IH; [|exact Hok]. apply R808_other_unclaimed. lia. exact HR. exact Hsafe.
 Qed.
 
 Lemma R808_run pa c : forall evs s1 s2, R808 c s1 s2 -> iso_ok pa c s1 evs = true ->
@@ -777,6 +853,34 @@ Proof.
   - f_equal. rewrite !filter_rev. f_equal. symmetry. apply filter_filter_imp.
     intros x Hx. unfold off. apply N.eqb_eq in Hx. rewrite Hx. apply negb_true_iff. lia.
   - symmetry. apply existsb_filter_other. exact Hn.
+Qed.
+
+(* ISOLATION, exact form: the events of connection c can be removed without changing what any other connection is
+   written or whether it is ended, provided nobody claims a key while c OWNS it *)
+Theorem isolation_808_unclaimed pa evs c c' : c' <> c -> unclaimed pa c init808 evs = true ->
+  seen808 c' (run808 pa evs) = seen808 c' (run808 pa (without c evs)).
+Proof.
+  intros Hn Hok. unfold run808.
+  destruct (R808_run_unclaimed pa c evs init808 init808) as (_ & _ & _ & _ & Hl & Hs); [|exact Hok|].
+  { repeat split. constructor. }
+  unfold seen808. rewrite Hl, Hs. f_equal.
+  - f_equal. rewrite !filter_rev. f_equal. symmetry. apply filter_filter_imp.
+    intros x Hx. unfold off. apply N.eqb_eq in Hx. rewrite Hx. apply negb_true_iff. lia.
+  - symmetry. apply existsb_filter_other. exact Hn.
+Qed.
+
+(* a connection that owns no key (it never joined, or every key it claimed was refused) is unclaimed *)
+Lemma unclaimed_keyless pa c : forall evs s,
+  (forall pre, holds_no_key c (fold_left (step808 pa) pre s) = true) -> unclaimed pa c s evs = true.
+Proof.
+  induction evs as [|e evs IH]; intros s H; cbn [unclaimed]. reflexivity.
+  apply andb_true_iff. split.
+  - specialize (H []). cbn [fold_left] in H. unfold holds_no_key in H.
+    destruct e as [c0|c0 now d|c0|c0]; try reflexivity.
+    destruct (c0 =? c); cbn [orb]. reflexivity.
+    destruct (cfind c0 (v_conns s)); [|reflexivity]. destruct (cfind c (v_conns s)) as [kc|]; [|reflexivity].
+    destruct (k_key kc). discriminate. reflexivity.
+  - apply IH. intros pre. apply (H (e :: pre)).
 Qed.
 
 (* a connection that never joined the registry (no valid frame of a registered type other than 0x8003
@@ -918,3 +1022,133 @@ Proof.
   unfold seen808. rewrite Hs. f_equal.
   rewrite !filter_rev. f_equal. f_equal. exact Hl.
 Qed.
+
+(* ---------------- the registry inside the server state: one owner per key (the invariant of C11) -------- *)
+Definition key_step (t : list N -> bool) (c c' : conn) : Prop :=
+  k_key c' = k_key c \/ (k_key c = None /\ exists key, k_key c' = Some key /\ t key = false).
+
+Lemma deliver_key pa t c p r : deliver pa t c p = Ok r -> key_step t c (dres_conn r).
+Proof.
+  unfold deliver. destruct (Reply.lookup (m_id (p_msg p))) as [hi|].
+  2:{ intros H. injection H as <-. now left. }
+  destruct (m_id (p_msg p) =? Reply.REISSUE). { intros H. injection H as <-. now left. }
+  destruct (if pa && pm_complete p then handler_parse_chk (p_msg p) else Ok tt) as [u|e|]; cbn [bind]; try discriminate.
+  destruct (k_key c) as [own|] eqn:Ek.
+  - destruct (pm_complete p && Reply.hi_has hi).
+    + destruct (reply_body_chk _ _ _) as [rb|e|]; cbn [bind]; try discriminate.
+      destruct (snd rb); intros H; injection H as <-; left; cbn [dres_conn k_key]; now rewrite Ek.
+    + intros H. injection H as <-. left. cbn [dres_conn k_key]. now rewrite Ek.
+  - destruct (t (phone_of (p_msg p))) eqn:Et.
+    + intros H. injection H as <-. left. cbn [dres_conn]. now rewrite Ek.
+    + assert (forall c', k_key c' = Some (phone_of (p_msg p)) -> key_step t c c') as Hj.
+      { intros c' Hc'. right. rewrite Ek. split. reflexivity. exists (phone_of (p_msg p)). auto. }
+      destruct (pm_complete p && Reply.hi_has hi).
+      * destruct (reply_body_chk _ _ _) as [rb|e|]; cbn [bind]; try discriminate.
+        destruct (snd rb); intros H; injection H as <-; apply Hj; reflexivity.
+      * intros H. injection H as <-. apply Hj. reflexivity.
+Qed.
+
+Lemma key_step_trans t a b c : key_step t a b -> key_step t b c -> key_step t a c.
+Proof.
+  intros [E1|(N1 & k1 & K1 & T1)] [E2|(N2 & k2 & K2 & T2)].
+  - left. congruence.
+  - right. rewrite <- E1. split. exact N2. exists k2. auto.
+  - right. split. exact N1. exists k1. split. congruence. exact T1.
+  - congruence.
+Qed.
+
+Lemma deliver_all_key pa t : forall ps c r, deliver_all pa t c ps = Ok r -> key_step t c (dres_conn r).
+Proof.
+  induction ps as [|p ps IH]; intros c r H; cbn [deliver_all] in H.
+  - injection H as <-. now left.
+  - destruct (deliver pa t c p) as [[c' o|c' o]|e|] eqn:Ed; cbn [bind] in H; try discriminate.
+    + apply deliver_key in Ed. cbn [dres_conn] in Ed.
+      destruct (deliver_all pa t c' ps) as [r2|e|] eqn:E2; cbn [bind] in H; try discriminate.
+      injection H as <-. apply IH in E2. eapply key_step_trans. exact Ed. destruct r2; exact E2.
+    + injection H as <-. apply deliver_key in Ed. exact Ed.
+Qed.
+
+Lemma conn_data_key pa t now c d r : conn_data pa t now c d = Ok r -> key_step t c (dres_conn r).
+Proof.
+  unfold conn_data. destruct (parse_chk now (k_ps c) d) as [[[ps' msgs] err]|e|]; cbn [bind]; try discriminate.
+  destruct err. { intros H. injection H as <-. now left. }
+  intros H. apply deliver_all_key in H. exact H.
+Qed.
+
+(* at most one live connection holds a key *)
+Definition one_owner (s : srv808) : Prop :=
+  cuniq (v_conns s) /\
+  forall c1 c2 k1 k2 key, cfind c1 (v_conns s) = Some k1 -> cfind c2 (v_conns s) = Some k2 ->
+    k_key k1 = Some key -> k_key k2 = Some key -> c1 = c2.
+
+Lemma taken_false_no_owner c m key c2 k2 : taken_by_others c m key = false -> c2 <> c ->
+  cfind c2 m = Some k2 -> k_key k2 <> Some key.
+Proof.
+  unfold taken_by_others. induction m as [|[k v] t IH]; intros Ht Hn Hf; cbn [cfind] in Hf. discriminate.
+  cbn [existsb fst snd] in Ht. apply orb_false_iff in Ht. destruct Ht as [Hh Ht].
+  destruct (k =? c2) eqn:E.
+  - injection Hf as <-. replace (k =? c) with false in Hh by lia. cbn [negb andb] in Hh.
+    intros Hk. rewrite Hk in Hh. rewrite (proj2 (list_eqb_spec key key) eq_refl) in Hh. discriminate.
+  - apply IH; auto.
+Qed.
+
+Lemma one_owner_step pa s e : v_crashed s = false -> one_owner s -> one_owner (step808 pa s e).
+Proof.
+  intros Hc [Hu Ho]. unfold step808. rewrite Hc.
+  assert (Hset : forall c k k', cfind c (v_conns s) = Some k ->
+            key_step (taken_by_others c (v_conns s)) k k' ->
+            one_owner {| v_conns := cset c k' (v_conns s); v_log := v_log s; v_shut := v_shut s; v_crashed := false |} ->
+            True) by auto.
+  assert (Hgen : forall c k k' lg sh, cfind c (v_conns s) = Some k ->
+            key_step (taken_by_others c (v_conns s)) k k' ->
+            one_owner {| v_conns := cset c k' (v_conns s); v_log := lg; v_shut := sh; v_crashed := false |}).
+  { intros c k k' lg sh Hf Hks. split. now apply cuniq_cset. cbn [v_conns].
+    intros c1 c2 k1 k2 key H1 H2 K1 K2.
+    destruct (N.eq_dec c1 c) as [->|N1]; destruct (N.eq_dec c2 c) as [->|N2]; auto.
+    - rewrite cfind_cset_same in H1. injection H1 as <-. rewrite cfind_cset_other in H2 by exact N2.
+      destruct Hks as [E|(Nn & key' & K' & T')].
+      + apply (Ho c c2 k k2 key Hf H2); congruence.
+      + exfalso. rewrite K' in K1. injection K1 as ->. eapply taken_false_no_owner; eauto.
+    - rewrite cfind_cset_same in H2. injection H2 as <-. rewrite cfind_cset_other in H1 by exact N1.
+      destruct Hks as [E|(Nn & key' & K' & T')].
+      + apply (Ho c1 c k1 k key H1 Hf); congruence.
+      + exfalso. rewrite K' in K2. injection K2 as ->. eapply taken_false_no_owner; eauto.
+    - rewrite cfind_cset_other in H1, H2 by assumption. eapply Ho; eauto. }
+  assert (Hrem : forall c lg sh,
+            one_owner {| v_conns := cremove c (v_conns s); v_log := lg; v_shut := sh; v_crashed := false |}).
+  { intros c lg sh. split. now apply cuniq_cremove. cbn [v_conns]. intros c1 c2 k1 k2 key H1 H2 K1 K2.
+    destruct (N.eq_dec c1 c) as [->|N1]. rewrite cfind_cremove_same in H1. discriminate.
+    destruct (N.eq_dec c2 c) as [->|N2]. rewrite cfind_cremove_same in H2. discriminate.
+    rewrite cfind_cremove_other in H1, H2 by assumption. eapply Ho; eauto. }
+  destruct e as [c|c now d|c|c].
+  - destruct (cfind c (v_conns s)) eqn:Ef. now split.
+    split. now apply cuniq_cset. cbn [v_conns]. intros c1 c2 k1 k2 key H1 H2 K1 K2.
+    destruct (N.eq_dec c1 c) as [->|N1]. rewrite cfind_cset_same in H1. injection H1 as <-. discriminate.
+    destruct (N.eq_dec c2 c) as [->|N2]. rewrite cfind_cset_same in H2. injection H2 as <-. discriminate.
+    rewrite cfind_cset_other in H1, H2 by assumption. eapply Ho; eauto.
+  - destruct (cfind c (v_conns s)) as [k|] eqn:Ef. 2:{ now split. }
+    destruct d as [|b d]. now split.
+    destruct (conn_data pa _ now k (b :: d)) as [[k' outs|k' outs]|err|] eqn:Ed.
+    + apply conn_data_key in Ed. cbn [dres_conn] in Ed. eapply Hgen; eauto.
+    + apply Hrem.
+    + now split.
+    + split. exact Hu. exact Ho.
+  - apply Hrem.
+  - destruct (cfind c (v_conns s)) as [k|] eqn:Ef. 2:{ now split. }
+    eapply Hgen. exact Ef. left. reflexivity.
+Qed.
+
+(* UNIQUE OWNER: in every reachable state of the server at most one live connection holds a given key *)
+Theorem one_owner_reachable pa evs : one_owner (run808 pa evs).
+Proof.
+  unfold run808.
+  assert (forall s, v_crashed s = false -> one_owner s -> one_owner (fold_left (step808 pa) evs s)) as H.
+  { induction evs as [|e evs IH]; intros s Hc Ho; cbn [fold_left]. exact Ho.
+    apply IH. now apply step808_alive. now apply one_owner_step. }
+  apply H. reflexivity. split. constructor. intros c1 c2 k1 k2 key H1. discriminate.
+Qed.
+
+Theorem registry_one_owner pa evs c1 c2 k1 k2 key :
+  cfind c1 (v_conns (run808 pa evs)) = Some k1 -> cfind c2 (v_conns (run808 pa evs)) = Some k2 ->
+  k_key k1 = Some key -> k_key k2 = Some key -> c1 = c2.
+Proof. exact (proj2 (one_owner_reachable pa evs) c1 c2 k1 k2 key). Qed.
